@@ -61,8 +61,8 @@ def gen_train(rng, method, nd, via):
 def gen_spline(rng, method, via):
     n = rng.randrange(max(4, KMIN.get(method, 4)), 9)
     c = {'kind': 'spline', 'method': method, 'via': via, 'a': pj(rng.choice([Fr(2), Fr(-1), Fr(1, 2), Fr(3)])),
-         'v': [pj(Fr(rng.randrange(-40, 41), 4)) for _ in range(n)],
-         'w': [pj(Fr(rng.randrange(-40, 41), 4)) for _ in range(n)], 'cmp': 'tol'}
+         'v': [pj(Fr(rng.randrange(-640, 641), 64)) for _ in range(n)],
+         'w': [pj(Fr(rng.randrange(-640, 641), 64)) for _ in range(n)], 'cmp': 'tol'}
     if method == 'bsplines':
         m = rng.randrange(2, 12)
         c['x_interp'] = [pj(Fr(k, m - 1)) for k in range(m)] if rng.random() < 0.5 else \
